@@ -1,2 +1,99 @@
+"""R-ERRPROP: no Result of a call that can write to / remove from / stage data for repository storage is dropped.
+Every such call site must `?`-propagate or return its Result (directly or through map_err & co), or hand it to an
+accepted consumer; everything else (unused `_ =`, `.ok()`, `unwrap_or*`, `if let Err(..)` that only logs) is a
+violation unless the site is in the exception table below (one line of reason each)."""
+import re
+from rules.common import *
+
+# exceptions confirmed by reading: (function regex, callee regex) -> reason
+EXCEPTIONS = [
+    (r"^rustic_core::backend::cache::CachedBackend", r".", "cache is best effort by design: the authoritative backend call's result is what is returned"),
+    (r"^rustic_core::blob::packer::(Packer::<BE>::new|Actor::new)::", r"crossbeam_channel::Sender::<T>::send$", "status is sent to the finish channel; a gone receiver means nobody waits"),
+]
+
+ACCEPTED_CONSUMERS = re.compile(
+    r"(crossbeam_channel::Sender::<T>::send$"           # status handed to the finalize() receiver
+    r"|^std::result::Result::<T, E>::and_then$"          # chained: the chain's result is checked separately
+    r"|^std::iter::Iterator::try_for_each|ParallelIterator::try_for_each"
+    r"|^std::result::Result::<T, E>::(map|map_err|inspect_err)$)")
+BAD_CONSUMERS = re.compile(r"^std::result::Result::<T, E>::(ok|unwrap_or|unwrap_or_default|unwrap_or_else|is_ok|is_err|err)$")
+
+
+def classify(E, bb):
+    """how the Result produced by the call at bb is consumed"""
+    t = E.term(bb)
+    dest = t["dest"][0]
+    if t["dest"] == [0]:
+        return "return", None
+    kind, edges = flow.try_ok_edges(E, bb)
+    if kind in ("?", "return"):
+        return kind, None
+    aliases, consumers, returned = flow.forward_aliases(E, dest, through=flow._RESULT_THROUGH)
+    if returned:
+        return "return", None
+    for (cb, ct, ai) in consumers:
+        c = callee(ct)
+        if BAD_CONSUMERS.search(c):
+            return "discarded", c
+    for (cb, ct, ai) in consumers:
+        c = callee(ct)
+        if ACCEPTED_CONSUMERS.search(c) or ACCEPTED_CONSUMERS.search(callee_decl(ct)):
+            return "handed-on", c
+    # aggregated into a value (e.g. Some(result), tuple) that is returned / yielded
+    for a in aliases:
+        if a == 0:
+            return "return", None
+    # discriminant inspected without `?`
+    for bi, b in enumerate(E.blocks):
+        for s in b["s"]:
+            if s[0] == "=" and s[2][0] == "discr" and s[2][1][0] in aliases:
+                return "matched", None
+    if consumers:
+        return "passed", callee(consumers[0][1])
+    return "dropped", None
+
+
 def run(ctx, rep, rule):
-    pass
+    prog, cg = ctx.prog, ctx.cg
+    rep.rule(rule, "every Result of a call with a storage write/remove/stage effect is `?`-propagated, returned, or handed to an accepted consumer")
+    eff = StagedEffects(prog, cg, kinds=("W", "RM", "CREATE", "STAGE"))
+    eff.compute()
+    n = 0
+    nsites = 0
+    per_fn_ord = {}
+    for b in list(prog.by_crate["rustic_core"]):
+        if is_storage_layer(b) and not b.path.startswith("<rustic_core::backend::decrypt") and "DecryptWriteBackend" not in b.path:
+            # forwarding wrappers below the interface are covered by their own properties (C16/C19/C20)
+            pass
+        per_site = eff.site_eff.get(b.path, {})
+        for bb, es in sorted(per_site.items()):
+            if not es:
+                continue
+            t = b.term(bb)
+            if t["k"] != "call" or "callee" not in t:
+                continue
+            if not t.get("dest_ty", "").startswith("std::result::Result"):
+                continue
+            # only sites whose OWN callee carries the effect (not a closure consumer like try_for_each: its result is
+            # the closure's result, checked too since it is a Result)
+            nsites += 1
+            c = callee(t)
+            k = (b.path, c)
+            per_fn_ord[k] = per_fn_ord.get(k, 0) + 1
+            kind, via = classify(b, bb)
+            ok = kind in ("?", "return", "handed-on")
+            reason = None
+            if not ok:
+                for (frx, crx, why) in EXCEPTIONS:
+                    if re.search(frx, b.path) and re.search(crx, c):
+                        ok = True
+                        reason = why
+            key = f"{fn_key(b)}/{strip_crate(c)}/{per_fn_ord[k]}"
+            rep.check(rule, key, ok, where=where(b, bb),
+                      what=f"{fn_key(b)}: Result of {strip_crate(c)} (effects {sorted({e[0] for e in es})}) is {kind}" + (f" via {via}" if via else "") + (f" [exception: {reason}]" if reason else ""))
+    rep.floor(rule, "storage-effect call sites returning Result", nsites, 60)
+
+
+def is_storage_layer(b):
+    tr = (b.impl or {}).get("trait", "") or ""
+    return tr.endswith(("backend::WriteBackend", "backend::ReadBackend"))
